@@ -80,7 +80,7 @@ CHECKS = [
              "sum by C03); noise floor 1e-11/L^2."},
     {"id": "C07", "engine": "history-monitor", "design_ref": "DESIGN.md §3 C07, §2.2",
      "technique": "property-based testing over generated run histories (Hypothesis draws configuration, seed, budget) with a per-event invariant monitor on the real mediator loop",
-     "text": 'Every commit of instrumented runs (17 shipped configurations verbatim + parameter-edited variants + generated families G4 (N hard-disk dipoles, 2-D rotated velocities), G5 (cell system in a non-cubic box) G6 (hard-disk dipoles with point masses in cells, velocity components of either sign) and G7 (three-site water molecules in the molecule/atom mode-switching wiring of dipole_motion.ini), 160 histories x 300-1500 events quick, 2560 x up to 6000 thorough): monotone event time, trajectory continuity of every unit at the event time modulo the box, resting units bit-identical, exactly one moving chain at the configured speed, positions in the box, identities/charges unchanged. Sub-check time_slice_helper: the shared time-slicing helper on directly drawn units (wall coordinates, velocity residues of rotations) against exact arithmetic. One recorded known finding (known_findings.json, DESIGN.md 8.2): the periodic-direction end-of-chain handler aborts on a rounding-level overshoot of its chain time when another periodic event falls on the same non-dyadic time.',
+     "text": 'Every commit of instrumented runs (17 shipped configurations verbatim + parameter-edited variants + generated families G4 (N hard-disk dipoles, 2-D rotated velocities), G5 (cell system in a non-cubic box) G6 (hard-disk dipoles with point masses in cells, velocity components of either sign) and G7 (three-site water molecules in the molecule/atom mode-switching wiring of dipole_motion.ini), 160 histories x 300-1500 events quick, 2560 x up to 6000 thorough): monotone event time, trajectory continuity of every unit at the event time modulo the box, resting units bit-identical, exactly one moving chain at the configured speed, positions in the box, identities/charges unchanged. Sub-checks on directly drawn inputs: time_slice_helper (the shared time-slicing helper: wall coordinates, velocity residues of rotations, exact arithmetic) and end_of_chain_out_state (both end-of-chain handlers in point-mass and molecule mode, 2-D and 3-D: speed kept, object velocity = weighted sum, event time stamps). One recorded known finding (known_findings.json, DESIGN.md 8.2): the periodic-direction end-of-chain handler aborts on a rounding-level overshoot of its chain time when another periodic event falls on the same non-dyadic time.',
      "note": "Trusted: vlib/monitor.py (harness-side recomputation of trajectories with the code's own Time subtraction), instance-attribute wrappers of vlib/engine.py, private reads Mediator._state_handler/_scheduler/_activator/_input_output_handler and Activator._taggers/_internal_states. Since the repair of the nearby-cells ordering (fix 55b0c76) runs with cell systems are a pure function of the drawn case; should Hypothesis still report a non-reproducible failure the first observed violation is reported with a note. Generated configurations edit parameters of shipped files only; hard_disk_dipoles(.ini|_cells.ini) need MDAnalysis and are not runnable here."},
     {"id": "C08", "engine": "history-monitor", "design_ref": "DESIGN.md §3 C08, §2.2",
      "technique": "property-based testing over generated run histories (Hypothesis draws configuration, seed, budget) with a per-event invariant monitor on the real mediator loop",
@@ -104,7 +104,7 @@ CHECKS = [
      "note": "Trusted: vlib/monitor.py (harness-side recomputation of trajectories with the code's own Time subtraction), instance-attribute wrappers of vlib/engine.py, private reads Mediator._state_handler/_scheduler/_activator/_input_output_handler and Activator._taggers/_internal_states. Since the repair of the nearby-cells ordering (fix 55b0c76) runs with cell systems are a pure function of the drawn case; should Hypothesis still report a non-reproducible failure the first observed violation is reported with a note. Generated configurations edit parameters of shipped files only; hard_disk_dipoles(.ini|_cells.ini) need MDAnalysis and are not runnable here."},
     {"id": "C17", "engine": "history-monitor", "design_ref": "DESIGN.md §3 C17, §2.2",
      "technique": "property-based testing over generated run histories (Hypothesis draws configuration, seed, budget) with a per-event invariant monitor on the real mediator loop",
-     "text": 'Generated sampling intervals (incl. 0.1/0.3/0.7, first sample at zero or one interval), end times in [2,12]: k-th write right after a commit at k*interval within (k+1)*2^-52*(1+interval), every moving unit in the written state time-stamped exactly at the sample time, end-of-run event last at Time.from_float(end), number of samples == number of nominal times before the end; one history in six has 500-8000 samples, one in four a second sampling tagger with its own output handler, one in three an output handler on the end-of-run event (state written there fully time-sliced). Sub-check periodic_handlers: the bare sampling and dumping handlers are asked for up to 4000 consecutive candidate times, each compared with k*interval in Fractions (one rounding per step allowed), strictly increasing.',
+     "text": 'Generated sampling intervals (incl. 0.1/0.3/0.7, first sample at zero or one interval), end times in [2,12]: k-th write right after a commit at k*interval within (k+1)*2^-52*(1+interval), every moving unit in the written state time-stamped exactly at the sample time, end-of-run event last at Time.from_float(end), number of samples == number of nominal times before the end; one history in six has 500-8000 samples, one in four a second sampling tagger with its own output handler, one in three an output handler on the end-of-run event (state written there fully time-sliced). Sub-check out_state_time_sliced: sampling and end-of-run handlers on one to three directly drawn active branches. Sub-check periodic_handlers: the bare sampling and dumping handlers are asked for up to 4000 consecutive candidate times, each compared with k*interval in Fractions (one rounding per step allowed), strictly increasing.',
      "note": "Trusted: vlib/monitor.py (harness-side recomputation of trajectories with the code's own Time subtraction), instance-attribute wrappers of vlib/engine.py, private reads Mediator._state_handler/_scheduler/_activator/_input_output_handler and Activator._taggers/_internal_states. Since the repair of the nearby-cells ordering (fix 55b0c76) runs with cell systems are a pure function of the drawn case; should Hypothesis still report a non-reproducible failure the first observed violation is reported with a note. Generated configurations edit parameters of shipped files only; hard_disk_dipoles(.ini|_cells.ini) need MDAnalysis and are not runnable here."},
     {"id": "C06", "engine": "hypothesis-runner", "design_ref": "DESIGN.md §3 C06",
      "technique": "model-based stateful property testing (Hypothesis RuleBasedStateMachine: heap vs list scheduler vs dictionary model) + coverage-guided fuzzing (libFuzzer, ASan+UBSan) of heap.c with an in-target reference model",
